@@ -29,13 +29,17 @@ def _worker(task):
         extra = dict(item.get("extra", {}))
         if generic:
             gs = item.get("gstrat")
-            if gs:
-                name = "json|%s" % ",".join("%s=%s" % kv for kv in sorted(gs.items()))
+            gt = item.get("gtrans")
+            if gs or gt:
+                name = "%s|%s%s" % ("tool" if kind == "tool" else "json", ",".join("%s=%s" % kv for kv in sorted((gs or {}).items())),
+                                    (";T=" + ",".join(gt)) if gt else "")
             run, merged, dec = mergedrv.run_generic(base, local, remote, name, extra=extra,
-                                                    snapshot=opts.get("snapshot", False), gstrat=gs)
+                                                    snapshot=opts.get("snapshot", False), gstrat=gs, gtrans=gt)
             if item.get("sym") and "raised" not in run:
-                sw, _, _ = mergedrv.run_generic(base, remote, local, name + "|sw", gstrat=gs)
+                sw, _, _ = mergedrv.run_generic(base, remote, local, name + "|sw", gstrat=gs, gtrans=gt)
                 run["sw"] = {k: sw[k] for k in ("raised", "D", "merged") if k in sw}
+            if kind == "tool" and "raised" not in run:
+                ev[item.get("toolkey", "toolD")] = run["D"]       # the open-conflict decisions later runs refer to
             ev["runs"].append(run)
             continue
         if kind == "side_io" and not io_only:
@@ -153,8 +157,9 @@ def replay_obj(ev, run, clauses, info=None):
     return obj
 
 
-def plan_item(kind, strat=("inline", None, None, True), helper_kind="all", sym=False, extra=None):
+def plan_item(kind, strat=("inline", None, None, True), helper_kind="all", sym=False, extra=None, **more):
     d = {"kind": kind, "strat": list(strat), "helper": helper_kind}
+    d.update(more)
     if sym:
         d["sym"] = True
     if extra:
